@@ -108,6 +108,10 @@ def generate(rng, tier, index):
     spec = {"shape": full_shape, "grid": grid, "steps": T, "faces": faces, "key": int(rng.integers(0, 2**31))}
     if sym_axes:
         spec["symmetry"] = [sym_walls.get(a, 0) for a in range(3)]
+    elif rng.uniform() < 0.3:
+        # complex-valued storage with genuinely complex random fields: co-location is linear, so the record is the co-location of
+        # the complex field (field detectors log with a complex dtype)
+        spec["complex"] = True
     spec["materials"] = {"mode": "random", "seed": int(rng.integers(0, 2**31)), "eps_tier": "iso"}
     dip_region = specgen.inner_region(shape, faces)
     for a in sym_axes:
@@ -123,6 +127,8 @@ def generate(rng, tier, index):
         d = {"kind": "field", "name": f"d{i}", "box": _box(rng, shape, cls), "box_class": cls, "exact": bool(rng.uniform() < 0.75), "components": specgen.rand_components(rng), "reduce": False}
         if len(sym_axes) >= 2 and i == 0:
             d["exact"], d["components"] = True, list(specgen.ALL_COMPONENTS)
+        if spec.get("complex"):
+            d["complex_dtype"] = True
         sw = specgen.rand_switch(rng, T, p_default=0.5, need_active=True)
         if sw:
             d["switch"] = sw
@@ -229,6 +235,8 @@ def execute(spec):
     stats["probe_two_or_more_symmetry_planes"] = int(sum(1 for x in sym if x != 0) >= 2)
     stats["probe_two_electric_planes_shared_edge_read"] = int(sum(1 for x in sym if x == -1) >= 2 and any(d["exact"] and all(d["box"][a][0] == shift[a] for a in range(3) if sym[a] == -1) for d in spec["detectors"]))
     stats["probe_nonuniform"] = int(spec["grid"]["kind"] == "rect")
+    stats["probe_complex_fields"] = int(bool(spec.get("complex")))
+    stats["probe_complex_fields_nonuniform"] = int(bool(spec.get("complex")) and spec["grid"]["kind"] == "rect")
     stats["probe_periodic_halo"] = int(any(wrap))
     stats["records_checked"] = checked
     sig = specgen.scene_signature(spec, sorted(set((d.get("box_class"), d["exact"]) for d in spec["detectors"])))
